@@ -10,6 +10,7 @@ impl Rng {
         z ^ (z >> 31)
     }
     pub fn below(&mut self, n: u64) -> u64 { if n == 0 { 0 } else { self.next() % n } }
+    pub fn below128(&mut self, n: u128) -> u128 { if n == 0 { 0 } else { (((self.next() as u128) << 64) | self.next() as u128) % n } }
     pub fn range(&mut self, lo: u64, hi: u64) -> u64 { lo + self.below(hi - lo + 1) }
     pub fn chance(&mut self, num: u64, den: u64) -> bool { self.below(den) < num }
     pub fn pick<'a, T>(&mut self, v: &'a [T]) -> &'a T { &v[self.below(v.len() as u64) as usize] }
